@@ -25,7 +25,9 @@ From VM Require Spec.C01 Spec.C14 Suite.C14 Proofs.C02 Proofs.C14.
 From VM Require Proofs.C07Geom Proofs.C07Data Proofs.C07Bitmap Proofs.C07Guest Proofs.C07Own Proofs.C07Copy Proofs.C13.
 From VM Require Import Spec.C07 Suite.C07 Proofs.C07.
 
-(* the assembled model - one call of any of the 74 entry points on any of the 9 target kinds (the 8th: a bitmap
+(* the assembled model - one call of any of the 79 entry points on any of the 10 target kinds (the 10th: a ByteValued
+   type with from_slice / from_mut_slice on a buffer of ANY length and alignment, zeroed, as_slice, as_mut_slice)
+   - formerly 74 entry points on 9 target kinds (the 8th: a bitmap
    created and then ENLARGED by any k with byte_size + k < 2^64; the 9th: the VolatileSlice ByteValued::as_bytes()
    gives over an object; entry points 61-64: the four stream transfers with the crate's OWN adapters - &[u8],
    &mut [u8], Vec<u8>, Cursor<_> at ANY position, File - as the stream; 65-69 the typed bulk copies incl. element
@@ -297,6 +299,16 @@ Theorem C07_array_copies_total : forall m h s t buf a n slice,
      (exists v, VolMem.va_copy_to_volatile_slice m h arr (VolMem.ty_size t) slice = Val v)).
 Proof. exact C07Copy.array_then_copies_total. Qed.
 
+(* ---------------------------------------------------------------- ByteValued *)
+(* from_slice / from_mut_slice (bytes.rs:44-87): None - not a panic - for every buffer whose length is not
+   size_of::<T>() (also shorter ones and the empty one), whatever its address; Some only for a buffer of exactly that
+   size, and then the reference is the buffer *)
+Theorem C07_from_slice_total : forall T addr len,
+  (len <> Volatile.e_size T -> Volatile.bv_from_slice T addr len = None /\ Volatile.bv_from_mut_slice T addr len = None) /\
+  (forall r, Volatile.bv_from_slice T addr len = Some r ->
+     len = Volatile.e_size T /\ Volatile.tr_addr r = addr /\ Volatile.tr_size r = len).
+Proof. exact from_slice_total_lemma. Qed.
+
 (* ---------------------------------------------------------------- the other documented panic *)
 (* checked_align_up panics exactly when the alignment fails the code's own power-of-two test
    (p = 0 or p & (p - 1) <> 0), in both profiles; every power of two passes it *)
@@ -375,3 +387,4 @@ Print Assumptions C07_default_exact_loops_total.
 Print Assumptions C07_io_try_access_total.
 Print Assumptions C07_slice_copies_total.
 Print Assumptions C07_array_copies_total.
+Print Assumptions C07_from_slice_total.
